@@ -1,5 +1,6 @@
 import BM.Sanitize
 import BM.Props.Pins
+import BM.Proofs.RecCheck
 /-
   C14 (no panic): for every policy and every token sequence the loop never reaches one of
   the partial operations of the Go code:
